@@ -1,6 +1,9 @@
 use std::sync::Arc;
 
+#[cfg(not(feature = "verif_hooks"))]
 use parking_lot::RwLock;
+#[cfg(feature = "verif_hooks")]
+use rawdb::verif::RwLock;
 use rawdb::Region;
 
 mod inner;
